@@ -449,6 +449,7 @@ func (h *hintMgr) RemoveMerged() {
 	for _, path := range paths {
 		utils.Remove(path)
 	}
+	verifPoint("hint.merged.removed")
 	h.merged = nil
 }
 
@@ -700,6 +701,7 @@ func (hm *hintMgr) loadHintsByChunk(chunkID int) (datasize uint32) {
 func (h *hintMgr) ClearChunk(chunkID int) {
 	h.chunks[chunkID] = newHintChunk(chunkID)
 	h.RemoveHintfilesByChunk(chunkID)
+	verifPoint("hint.chunk.cleared")
 }
 
 // e.g. get A
